@@ -21,7 +21,7 @@ func init() {
 	Register(&Check{
 		Spec: core.Spec{ID: "C16", Level: "exploration",
 			Rule:        "case = batch of generated operation sequences (<= 40 ops) over 1-6 interleaved writers on a real temporary directory, with the file-name draw forced (tagged setter) through a pool of 1-4 names plus occasional fresh names so collisions with published files, reservations, orphan .tmp files and other writers are the norm; payloads are valid bloom files, truncated ones and garbage. After every operation a 40-line sequential model (name -> reserved / writing / published(bytes) / gone) is compared with the directory listing, with OpenFile of every published pointer, and periodically with the scan. A concurrent variant (goroutine per writer, -race) checks the final state. non-trivial = sequence in which CreateFile had to redraw at least once or a tombstone/abort hit a live artifact; distinct = distinct op sequences",
-			Assumptions: []string{"a writer whose pointer was tombstoned mid-write is retired (the engine never keeps writing to a pointer it tombstoned)", "the writer is used from one goroutine at a time and Close is not called twice (DataStore contract)"},
+			Assumptions: []string{"a writer whose pointer was tombstoned mid-write is retired (the engine never keeps writing to a pointer it tombstoned)", "the writer is used from one goroutine at a time (DataStore contract); a redundant second Close or an Abort after Close may return anything but must change nothing"},
 			Floors:      map[string]int64{"sequences": 200, "ops": 4000, "collisions_forced": 300}},
 		Cases:       func(t string) int { return nQueries(t, 64, 1600) },
 		Run:         runC16,
@@ -256,6 +256,17 @@ func c16Sequence(rc *RunCtx, i, s int, r *core.Rand) {
 			delete(dat, w.base)
 			delete(tmp, w.base)
 			hitLive++
+		case op == 9 && len(writers) > 0 && r.Bool(): // a redundant second Close (e.g. a deferred one): whatever it returns, nothing changes
+			w := core.Pick(r, writers)
+			if w.state != "closed" {
+				continue
+			}
+			err := w.w.Close()
+			ops = append(ops, fmt.Sprintf("close-again(%s)=%v", w.base, err))
+			if r.Bool() {
+				w.w.(interface{ Abort() error }).Abort()
+				ops = append(ops, fmt.Sprintf("abort-after-close-again(%s)", w.base))
+			}
 		case op == 7 && len(writers) > 0: // abort after close is a no-op
 			w := core.Pick(r, writers)
 			if w.state != "closed" {
